@@ -71,7 +71,7 @@ int main(int argc, char **argv) {
 #elif defined(USE_MPI_SIGNED) || defined(USE_MPI_TREES) || defined(USE_MPI_UMBRELLA)
     boost::mpi::environment env(argc, argv);
     boost::mpi::communicator world;
-#if defined(USE_MPI_SIGNED) || defined(USE_MPI_UMBRELLA)
+#if defined(USE_MPI_SIGNED) || (defined(USE_MPI_UMBRELLA) && defined(PARMCB_HAVE_TBB))      // the signed MPI variant needs TBB; the umbrella leaves it out without
     { double r = parmcb::mcb_sva_signed_mpi(g, w, std::back_inserter(cycles), world); if (world.rank() == 0 && r != 7) return fail("mcb_sva_signed_mpi"); }
 #endif
 #if defined(USE_MPI_TREES) || defined(USE_MPI_UMBRELLA)
@@ -79,10 +79,12 @@ int main(int argc, char **argv) {
     { double r = parmcb::mcb_sva_fvs_trees_mpi(g, w, std::back_inserter(cycles), world); if (world.rank() == 0 && r != 7) return fail("mcb_sva_fvs_trees_mpi"); }
     cycles.clear();
     { double r = parmcb::mcb_sva_iso_trees_mpi(g, w, std::back_inserter(cycles), world); if (world.rank() == 0 && r != 7) return fail("mcb_sva_iso_trees_mpi"); }
+#ifdef PARMCB_HAVE_TBB
     cycles.clear();
     { double r = parmcb::mcb_sva_fvs_trees_tbb_mpi(g, w, std::back_inserter(cycles), world); if (world.rank() == 0 && r != 7) return fail("mcb_sva_fvs_trees_tbb_mpi"); }
     cycles.clear();
     { double r = parmcb::mcb_sva_iso_trees_tbb_mpi(g, w, std::back_inserter(cycles), world); if (world.rank() == 0 && r != 7) return fail("mcb_sva_iso_trees_tbb_mpi"); }
+#endif
 #endif
 #elif defined(USE_FORESTINDEX)
     parmcb::ForestIndex<Graph> fi(g);
